@@ -13,12 +13,14 @@ inductive Op where
   | recv (pkt : Bytes)
   | judge (pkt : Bytes) (ttl : Nat) (ip : Bytes) (dest : Bool)   -- spec on an implementation outcome
   | wf (pkt : Bytes) (ttl rnd : Nat)                              -- C06 well-formedness of an emitted probe
+  | obs (ttl now : Nat) (pkt : Bytes)   -- record a probe the IMPLEMENTATION emitted (identifiers read off its bytes)
 
 def parseOp (s : String) : Option Op :=
   match splitOn s ':' with
   | ["s", t, n] => do pure (.send (← t.toNat?) (← n.toNat?) 0)
   | ["s", t, n, r] => do pure (.send (← t.toNat?) (← n.toNat?) (← r.toNat?))
   | ["r", p] => (parseHex p).map .recv
+  | ["S", t, n, p] => do pure (.obs (← t.toNat?) (← n.toNat?) (← parseHex p))
   | ["k", p, t] => do pure (.wf (← parseHex p) (← t.toNat?) 0)
   | ["k", p, t, r] => do pure (.wf (← parseHex p) (← t.toNat?) (← r.toNat?))
   | ["j", p, t, ip, d] => do pure (.judge (← parseHex p) (← t.toNat?) (← parseHex ip) (← parseBool d))
@@ -32,17 +34,23 @@ def showOut : Out → String
 
 /-- generic step loop over a driver state -/
 def runOps {σ : Type} (send : σ → Nat → Nat → Nat → SendRes σ) (recv : σ → Bytes → Out)
-    (judge : σ → Nat → Bytes → Bool → Bytes → Bool) (wf : σ → Bytes → Nat → Nat → Bool) (st : σ) (ops : List Op) : List String :=
+    (judge : σ → Nat → Bytes → Bool → Bytes → Bool) (wf : σ → Bytes → Nat → Nat → Bool) (addSent : σ → Sent → σ)
+    (st : σ) (ops : List Op) : List String :=
   match ops with
   | [] => []
   | .send t n r :: rest =>
     match send st t n r with
-    | .ok st' pkt => s!"w:{toHex pkt}" :: runOps send recv judge wf st' rest
-    | .err => "serr" :: runOps send recv judge wf st rest
-  | .recv p :: rest => showOut (recv st p) :: runOps send recv judge wf st rest
+    | .ok st' pkt => s!"w:{toHex pkt}" :: runOps send recv judge wf addSent st' rest
+    | .err => "serr" :: runOps send recv judge wf addSent st rest
+  | .recv p :: rest => showOut (recv st p) :: runOps send recv judge wf addSent st rest
   | .judge p t a d :: rest =>
-    s!"g:{showBool (judge st t a d (p.take Wire.bufSize))}" :: runOps send recv judge wf st rest
-  | .wf p t r :: rest => s!"q:{showBool (wf st p t r)}" :: runOps send recv judge wf st rest
+    s!"g:{showBool (judge st t a d (p.take Wire.bufSize))}" :: runOps send recv judge wf addSent st rest
+  | .wf p t r :: rest => s!"q:{showBool (wf st p t r)}" :: runOps send recv judge wf addSent st rest
+  | .obs t n p :: rest =>
+    -- the per-probe identifiers as they are ON THE WIRE: IP id / IPv6 payload length at offset 4,
+    -- TCP sequence number at offset 24
+    let sent : Sent := { ttl := t, id := (u16 p 4).getD 0, seq := (u32 p 24).getD 0, time := n }
+    "o" :: runOps send recv judge wf addSent (addSent st sent) rest
 
 def icmp : Handler
   | l :: t :: e :: mn :: mx :: ops => orBad do
@@ -53,7 +61,7 @@ def icmp : Handler
       (fun s t a d p => if cfg.localA.length = 16 then Spec.genuineIcmp6 s.cfg s.sent t a d p else Spec.genuineIcmp4 s.cfg s.sent t a d p)
       (fun s p t _ => if cfg.localA.length = 16 then Spec.wfIcmp6 p s.cfg.localA s.cfg.target s.cfg.echoId t
                       else Spec.wfIcmp4 p s.cfg.localA s.cfg.target s.cfg.echoId t)
-      { cfg, sent := [] } ops))
+      (fun s x => { s with sent := s.sent ++ [x] }) { cfg, sent := [] } ops))
   | _ => badOp
 
 def udp : Handler
@@ -65,7 +73,7 @@ def udp : Handler
       (fun s t a d p => if cfg.target.length = 16 then Spec.genuineUdp6 s.cfg s.sent t a d p else Spec.genuineUdp4 s.cfg s.sent t a d p)
       (fun s p t _ => if cfg.target.length = 16 then Spec.wfUdp6 p s.cfg.localA s.cfg.target s.cfg.lport s.cfg.tport t
                       else Spec.wfUdp4 p s.cfg.localA s.cfg.target s.cfg.lport s.cfg.tport t)
-      { cfg, sent := [] } ops))
+      (fun s x => { s with sent := s.sent ++ [x] }) { cfg, sent := [] } ops))
   | _ => badOp
 
 def tcp : Handler
@@ -76,7 +84,7 @@ def tcp : Handler
     let ops ← ops.mapM parseOp
     pure (" ".intercalate (runOps tcpSend tcpRecv (fun s t a d p => Spec.genuineTcp s.cfg s.sent t a d p)
       (fun s p t r => Spec.wfTcpSyn p s.cfg.localA s.cfg.target s.cfg.lport s.cfg.tport (tcpIds s.cfg t r).1 (tcpIds s.cfg t r).2 t)
-      { cfg, sent := [] } ops))
+      (fun s x => { s with sent := s.sent ++ [x] }) { cfg, sent := [] } ops))
   | _ => badOp
 
 def parseTs (s : String) : Option (Option (Nat × Nat)) :=
@@ -93,7 +101,7 @@ def sack : Handler
     let ops ← ops.mapM parseOp
     pure (" ".intercalate (runOps (fun s t n _ => sackSend s t n) sackRecv (fun s t a d p => Spec.genuineSack s.cfg s.sent t a d p)
       (fun s p t _ => Spec.wfSack p s.cfg.localA s.cfg.target s.cfg.lport s.cfg.tport ((s.cfg.isn + t) % 4294967296) s.cfg.iack t)
-      { cfg, sent := [] } ops))
+      (fun s x => { s with sent := s.sent ++ [x] }) { cfg, sent := [] } ops))
   | _ => badOp
 
 def handlers : List (String × Handler) :=
